@@ -435,6 +435,17 @@ func vfFamDMungeSetup(sdpText, value string) string {
 	}
 }
 
+// vfFamDMungeSetupSession removes every a=setup line and states the value once at session
+// level (RFC 4145: the attribute may be given at either level).
+func vfFamDMungeSetupSession(sdpText, value string) string {
+	s := vfFamDSetupRe.ReplaceAllString(sdpText, "")
+	i := strings.Index(s, "\nm=")
+	if i < 0 {
+		return s
+	}
+	return s[:i+1] + "a=setup:" + value + "\r\n" + s[i+1:]
+}
+
 // vfFamDSetupValues lists the values of all a=setup lines in document order.
 func vfFamDSetupValues(sdpText string) []string {
 	var out []string
